@@ -510,6 +510,20 @@ class AsyncFIXConnection:
         Args:
             connection_state: new connection state
         """
+        if (
+            self._connection_state <= ConnectionState.DISCONNECTED_BROKEN_CONN
+            and ConnectionState.DISCONNECTED_BROKEN_CONN < connection_state
+            and self._socket_writer is None
+            and self._connection_state != ConnectionState.UNKNOWN
+        ):
+            # the connection was taken down while this step was suspended (in the
+            #  drain() of a Logon reply, a ResendRequest, a resend): a disconnected
+            #  connection comes back through connect() only
+            self.log.debug(
+                f"[{self._connection_role.name}] NewState {connection_state.name}"
+                " ignored: disconnected meanwhile"
+            )
+            return
         self.log.debug(
             f"[{self._connection_role.name}] NewState: {connection_state.name}"
         )
@@ -608,6 +622,9 @@ class AsyncFIXConnection:
         else:
             await self._state_set(ConnectionState.RECV_SEQNUM_TOO_HIGH)
 
+        if self._connection_state <= ConnectionState.DISCONNECTED_BROKEN_CONN:
+            # disconnected while the Logon() reply was written: no session to report
+            return
         await self.on_logon(self._connection_state == ConnectionState.ACTIVE)
 
     async def _check_seqnum_gaps(self, msg_seq_num: int) -> bool:
